@@ -429,12 +429,33 @@ func verifNodeIsZero(id int) bool {
 	if id == verifZERO {
 		return true
 	}
-	if nf := verifNF(id); len(nf) == 1 {
+	nf := verifNF(id)
+	if len(nf) == 1 {
 		// c*m = 0 iff m = 0 (c a small non-zero integer, n a large prime)
 		return verifIsZero4(verifMonoValue(nf[0].f))
 	}
-	abs, _ := verifAbs(id) // -x = 0 iff x = 0
-	return verifIsZero4(verifVal(abs))
+	// g*x = 0 iff x = 0 for the (small) gcd g of the coefficients; -x = 0 iff x = 0
+	g := 0
+	for _, t := range nf {
+		c := t.c
+		if c < 0 {
+			c = -c
+		}
+		for c != 0 {
+			g, c = c, g%c
+		}
+	}
+	if nf[0].c < 0 {
+		g = -g
+	}
+	if g != 1 {
+		red := make([]verifTerm, len(nf))
+		for i, t := range nf {
+			red[i] = verifTerm{f: t.f, c: t.c / g}
+		}
+		id = verifIntern(red)
+	}
+	return verifIsZero4(verifVal(id))
 }
 
 // verifNodeEq: a = b, decided on the normal form of the difference (so that a + delta = a is
